@@ -295,6 +295,7 @@ fn main() {
                     if name == "events_mods" { 1 } else if name == "events_decode" { 2 } else if name == "events_values" { 6 } else if name == "events_values_all" { 7 } else { 3 },
                     true,
                 ),
+                "events_deep" => scenario_events_deep(v[0] != 0, (v[1] as u64).to_le_bytes(), (v[2] as u64).to_le_bytes(), true),
                 "events_real" => scenario_events_real([v[0] as u8, v[1] as u8, v[2] as u8], [v[3] as u8, v[4] as u8, v[5] as u8], v[6] as u8, v[7] as u8, v[8] as u8, true),
                 "switching" => scenario_switching([v[0] as u8, v[1] as u8, v[2] as u8], [v[3] as u8, v[4] as u8, v[5] as u8], v[6] as u8, v[7] as u8, v[8] as u8, v[9] != 0, true),
                 "resync1" | "resync2" => scenario_resync(if name == "resync1" { 1 } else { 2 }, [v[0] as u8, v[1] as u8, v[2] as u8, v[3] as u8], v[4] as u8, [v[5] as u8, v[6] as u8, v[7] as u8], true),
